@@ -1275,6 +1275,17 @@ public:
     if (assignCost.getNumberOfColumns() != dim)
       throw Exception("MatrixTools::lap. Cost matrix should be scare.");
 
+    // costs must be finite numbers: with NaN or infinite costs the comparisons below do not
+    // order the reduced costs (inf - inf) and the duals are meaningless.
+    for (size_t r = 0; r < dim; r++)
+    {
+      for (size_t c = 0; c < dim; c++)
+      {
+        if (!std::isfinite(assignCost(r, c)))
+          throw Exception("MatrixTools::lap. Costs should be finite.");
+      }
+    }
+
     // the output vectors get one element per row / column of the cost matrix.
     rowSol.resize(dim);
     colSol.resize(dim);
